@@ -318,6 +318,12 @@ func runC07(o *hx.Out, r *hx.Rand, thorough bool) {
 		o.Case(kind, fmt.Sprintf("Srv %s %s %s %s %s", hx.B(single), hx.Hex(body), hx.B(abrupt), hexList(msgs), hx.Z(fin)), desc)
 	}
 
+	{
+		rid := 9500
+		replyAsYouGo(o, &rid, func(o *hx.Out, kind string, id int, ok bool, d map[string]interface{}) {
+			o.Case(kind, fmt.Sprintf("GoSide %s %d %s", hx.Str(kind), id, hx.B(ok)), d)
+		})
+	}
 	// corpus: the witnesses of defects that were repaired (they must stay repaired)
 	hostile := [][]byte{
 		{0x7f, 0xff, 0xff, 0xff},       // 2 GiB prefix (was: client allocates 2 GiB)
